@@ -210,6 +210,7 @@ pub fn run(r: &mut Report, ctx: &Ctx) {
     per_variant::<VNormalLC>(r, ctx);
     per_variant::<VLong>(r, ctx);
     per_variant::<VLongLC>(r, ctx);
+    crate::seq::section(r, ctx, "compare");
 }
 
 fn rs<V: Variant>(l: &str, r: &str) -> Result<(), String> {
